@@ -362,6 +362,56 @@ def yield_seq(sc, libdir):
     return ('seq', [hdr(True, sc.get('cross', False), libdir)] + ops)
 
 
+# ------------------------------------------------------------------ machine files -> option keys
+MF_KEYS = ['pkg_config_path', 'build.pkg_config_path', 'cmake_prefix_path', 'werror', 'build.werror', 'c_args', 'build.c_args',
+           'cpp_std', 'foo', 'python.bytecompile', 'default_library', 'prefix', 'bindir', 'b_lto', 'unity_size', 'x_y']
+MF_BAD_KEYS = ['sub:werror', ':werror', 'build.python.x', 'a.b.c', 'a:b:c', 'build.', 'other:build.c_args']
+MF_SECTIONS = ['built-in options', 'project options', 'sub:built-in options', 'sub:project options', 'other:built-in options',
+               'paths', 'custom stuff', 'sub:custom stuff', 'a:b:built-in options', 'sub:other:project options', ':built-in options']
+MF_VALUES = ['/p', 'x', True, False, 3, ['a', 'b'], []]
+
+
+def ecfg(sections):
+    """sections: list of (name, [(keytext, value)])"""
+    return ''.join(S1 + n + S5 + ''.join(S2 + k + S3 + eval_(v) for k, v in ents) for n, ents in sections)
+
+
+def rand_cfg(rng, hostile):
+    names = rng.sample(MF_SECTIONS[:5] + (MF_SECTIONS[5:] if hostile or rng.random() < 0.15 else []), rng.randint(1, 4))
+    out = []
+    for n in names:
+        keys = rng.sample(MF_KEYS, rng.randint(0, 4))
+        if hostile and rng.random() < 0.5:
+            keys.insert(rng.randint(0, len(keys)), rng.choice(MF_BAD_KEYS))
+        out.append((n, [(k, rng.choice(MF_VALUES)) for k in keys]))
+    return out
+
+
+def mf_cases(rng, n):
+    cases = []
+    # exhaustive: native/cross file x section kind x per-machine or not x build. prefix or not x is_cross
+    for sect in MF_SECTIONS[:5] + ['paths']:
+        for key in ['pkg_config_path', 'build.pkg_config_path', 'c_args', 'build.c_args', 'werror', 'build.werror', 'foo', 'python.bytecompile']:
+            ents = [(key, '/v')]
+            for is_cross in (False, True):
+                cases.append(('mfload', ['T' if is_cross else 'F', ecfg([(sect, ents)]), ecfg([]) if is_cross else '-']))
+                if is_cross:
+                    cases.append(('mfload', ['T', '-', ecfg([(sect, ents)])]))
+                    cases.append(('mfload', ['T', ecfg([(sect, [(key, '/n')])]), ecfg([(sect, [(key, '/c')])])]))
+    for k in MF_KEYS + MF_BAD_KEYS + ['', 'build.build.x', 'a.b', '.x', 'x.', 'é.ü', 'build.é']:
+        cases.append(('fromstr', [k]))
+        for sp in ('-', '=', '=sub', '=s p'):
+            for m in 'HB':
+                cases.append(('mfkey', [k, sp, m]))
+    for i in range(n):
+        hostile = rng.random() < 0.25
+        is_cross = rng.random() < 0.6
+        nat = ecfg(rand_cfg(rng, hostile)) if rng.random() < 0.85 else '-'
+        cro = ecfg(rand_cfg(rng, hostile)) if is_cross else '-'
+        cases.append(('mfload', ['T' if is_cross else 'F', nat, cro]))
+    return cases
+
+
 def corpus(libdir):
     H, HC, H0 = hdr(True, False, libdir), hdr(True, True, libdir), hdr(False, False, libdir)
     g = lambda n, s=None, b=False: ekey(n, s, b)
@@ -595,6 +645,28 @@ def cli_extra_cases():
                 "option('b', type: 'boolean', value: true, deprecated: {'yes': 'true', 'no': 'false'})\n")
     add('deprecated-rename-and-map', {'meson.build': "project('p')\n" + _msg('old_name', 'new_name', 'b'), 'meson.options': dep_opts},
         ['-Dold_name=v', '-Db=no'], {'old_name': 'v', 'new_name': 'v', 'b': 'false'})
+    # cross builds: native file = build machine, cross file = host machine, [sub:...] sections per subproject
+    XHOST = "[host_machine]\nsystem = 'linux'\ncpu_family = 'x86_64'\ncpu = 'x86_64'\nendian = 'little'\n"
+    pm = _msg('pkg_config_path', 'build.pkg_config_path')
+    xfiles = {'meson.build': "project('top')\n" + pm + "subproject('sub')\n",
+              'subprojects/sub/meson.build': "project('sub')\n" + _msg('pkg_config_path', 'build.pkg_config_path', sub=True)}
+    add('cross-native-and-cross-file-with-sub-sections',
+        dict(xfiles, **{'native.ini': "[built-in options]\npkg_config_path = '/n'\n[sub:built-in options]\npkg_config_path = '/nsub'\n",
+                        'cross.ini': XHOST + "[built-in options]\npkg_config_path = '/c'\n[sub:built-in options]\npkg_config_path = '/csub'\n"}),
+        ['--native-file', 'native.ini', '--cross-file', 'cross.ini'],
+        {'pkg_config_path': "['/c']", 'build_pkg_config_path': "['/n']", 'S_pkg_config_path': "['/csub']", 'S_build_pkg_config_path': "['/nsub']"})
+    add('cross-native-sub-section-only',
+        dict(xfiles, **{'native.ini': "[sub:built-in options]\npkg_config_path = '/nsub'\n", 'cross.ini': XHOST}),
+        ['--native-file', 'native.ini', '--cross-file', 'cross.ini'],
+        {'pkg_config_path': '[]', 'build_pkg_config_path': '[]', 'S_pkg_config_path': '[]', 'S_build_pkg_config_path': "['/nsub']"})
+    add('cross-cmdline-sub-build-beats-native-file',
+        dict(xfiles, **{'native.ini': "[built-in options]\npkg_config_path = '/n'\n[sub:built-in options]\npkg_config_path = '/nsub'\n", 'cross.ini': XHOST}),
+        ['--native-file', 'native.ini', '--cross-file', 'cross.ini', '-Dsub:build.pkg_config_path=/cl', '-Dpkg_config_path=/h'],
+        {'pkg_config_path': "['/h']", 'build_pkg_config_path': "['/n']", 'S_pkg_config_path': "['/h']", 'S_build_pkg_config_path': "['/cl']"})
+    add('cross-native-non-per-machine-option-dropped',
+        {'meson.build': "project('top')\n" + _msg('werror', 'default_library'),
+         'native.ini': "[built-in options]\nwerror = true\n", 'cross.ini': XHOST + "[built-in options]\ndefault_library = 'static'\n"},
+        ['--native-file', 'native.ini', '--cross-file', 'cross.ini'], {'werror': 'false', 'default_library': 'static'})
     # yielding
     def ysub(topdecl, subdecl, args, want_top, want_sub, name):
         add(name, {'meson.build': "project('top')\n" + _msg('mode') + "subproject('sub')\n", 'meson.options': topdecl + '\n',
@@ -685,6 +757,8 @@ def run(ctx):
         cases.append((fn, args))
         if 'set' in sc:
             cases.append((fn, args[:-4] + args[-2:]))      # without the failing/succeeding set of the parent
+    # ---- machine files: key text / section / machine -> OptionKey, and Environment.options of real files
+    cases += mf_cases(rng, 4000 if thorough else 700)
     # ---- validate_value cells: every kind x junk/valid values
     for kind in KINDS + [kint(2, None), kint(-1, 2), kcombo(LETTERS)]:
         for v in JUNK:
@@ -714,7 +788,7 @@ def run(ctx):
     chunks = [cases[i:i + CH] for i in range(0, len(cases), CH)]
     from concurrent.futures import ThreadPoolExecutor
     with ThreadPoolExecutor(max_workers=min(NPROC, 8)) as ex:
-        for r in ex.map(lambda c: run_impl('c07.py', {'cases': c}), chunks):
+        for r in ex.map(lambda c: run_impl('c07.py', {'cases': c, 'scratch': ctx.mkscratch()}), chunks):
             impl += r['results']
             stored_bad += r['stored_invalid']
     model = ctx.run_model(cases, shards=NPROC) if built else impl
@@ -779,6 +853,28 @@ def run(ctx):
                                  ('s', 'x', [('old', 'Sa'), ('other', 'Sother')])):
         for v, want in cells:
             scen.append(dict(o='misc', t='replace', kind=kind, default=eval_(default), depr=dmap, value=eval_(v), want=want))
+    # ---- machine files: every (file, section subproject, section kind, per-machine or not, build. prefix, is_cross)
+    #      cell alone, then random non-colliding combinations
+    mf_names = {'builtin': ['pkg_config_path', 'werror', 'c_args'], 'project': ['foo']}
+    cells = [(f, subp, kind, name, bp) for f in ('native', 'cross') for subp in ('', 'sub', 'other') for kind in ('builtin', 'project')
+             for name in mf_names[kind] for bp in (False, True)]
+    for cross in (False, True):
+        for c in cells:
+            if c[0] == 'cross' and not cross:
+                continue
+            scen.append(dict(o='mf', cross=cross, entries=[list(c) + ['/v']]))
+        for _ in range(300 if thorough else 80):
+            ents, seen = [], set()
+            for i, c in enumerate(rng.sample(cells, rng.randint(2, 7))):
+                if c[0] == 'cross' and not cross:
+                    continue
+                key = (c[1], c[4] or (c[0] == 'native' and cross), c[3])
+                if key in seen:
+                    continue
+                seen.add(key)
+                ents.append(list(c) + ['/v%d' % i])
+            if ents:
+                scen.append(dict(o='mf', cross=cross, entries=ents))
     # buildtype and prefix scenarios (exhaustive over sources)
     for bt in ['plain', 'debug', 'debugoptimized', 'release', 'minsize', 'custom']:
         for sb in ('p', 'mf', 'cl'):
@@ -796,7 +892,7 @@ def run(ctx):
     res = []
     och = [scen[i:i + 6000] for i in range(0, len(scen), 6000)]
     with ThreadPoolExecutor(max_workers=min(NPROC, 8)) as ex:
-        for r in ex.map(lambda c: run_impl('c07.py', {'oracle': c}), och):
+        for r in ex.map(lambda c: run_impl('c07.py', {'oracle': c, 'scratch': ctx.mkscratch()}), och):
             res += r['oracle']
     ctx.extra['oracle_scenarios'] = len(scen)
     for f in res:
